@@ -14,10 +14,18 @@ NA = {
 PENDING = "check not built yet in this session (work in progress; see DESIGN.md §4 for the planned rules)"
 
 CHECKS = {
+    "C03": dict(
+        technique="semantic classification of schedule walkers (cursor start/step provenance) + vtable-resolved dispatch check + may-write frame of the Mantis mode switch",
+        text="Decides structural necessary conditions of 'decrypt inverts encrypt', not the algebra: every *_encrypt entry point and vtable slot 0 reaches only functions that walk the key schedule forward from entry 0, every *_decrypt entry point and slot 1 only functions that walk it backward from rounds-1 (including the scalar tails the 128-block test never executes); each walk starts at the right end and visits exactly `rounds` entries of the same object's rounds field; mantis_swap_modes writes exactly k0, k0prime and k1 (tweak and rounds preserved) and the parallel wrapper applies it to the object's own context. NOT decided: that the inverse S-boxes, inverse rounds and the alpha/k0' algebra are inverses (value facts).",
+        note=NOTE),
     "C05": dict(
         technique="must-store summaries for the invalidation protocol + path-by-path abstract evaluation (linear forms over SSA atoms) of the seven CTR encrypt loops + call-site constant sets for lane advance/stagger + definite-initialisation of the counter load",
         text="Decides the buffering protocol that makes the output independent of how the data is cut into calls, for all 7 back ends, with BATCH taken from sizeof(ecounter): every setter and init leaves the buffer exhausted on all success paths; each refill encrypts counter->ecounter under the context's own schedule, guarded by offset >= BATCH, and advances every lane exactly once by BATCH/BLOCK; set_counter defines all counter bytes, places the caller's bytes at the end of the block (left zero padding) and staggers lane i by i; on every path through the encrypt loop the keystream bytes [a,a+n) used are followed by offset := a+n with n bounded by the bytes left, a whole batch is only consumed under size >= BATCH, out/in/size cursors move by exactly the bytes consumed, out and in share the same offset; increment helpers walk all block bytes with a fixed trip count. NOT decided: that the buffered bytes equal E(c+i) (value fact).",
         note=NOTE + " Member-extent assumption: a helper handed the address of a struct member writes only inside that member (its own accesses are bounded by C09)."),
+    "C07": dict(
+        technique="path-by-path evaluation of the parallel loops (cursor deltas as linear forms) + byte/lane-granular may-dependency (colour) analysis of the vector ECB functions on -O3 IR + extent/parallel_size agreement",
+        text="Decides structural necessary conditions of 'parallel == block by block', not the values: in every loop of the six public parallel functions all data cursors (output, input, Mantis tweak) are advanced in that loop by exactly what size decreases by, which is what the callee consumes (ecb->parallel_size for the vtable slot, the block size for the scalar tail), the callee receives the current cursors and the loop guard keeps that many bytes available; parallel_size equals the bytes the selected slot target writes; in the -O3 IR of each of the 7 vector ECB functions every output byte of block b may depend only on input (and tweak) block b and the whole batch is written; encrypt/decrypt dispatch only to forward/backward walkers; non-multiples of the block are rejected and the empty call succeeds without touching memory. NOT decided: equality of the vector and scalar round functions.",
+        note=NOTE + " Lane analysis is a may-dependency over-approximation on clang's -O3 IR."),
     "C08": dict(
         technique="interprocedural information-flow (security-type / taint) analysis over LLVM IR, source-shaped and -O3, with vtable-resolved calls and def-use witnesses",
         text="Every function of the library is typed with public/secret levels: all memory is secret except an explicit table of public fields (rounds, offset, parallel_size, pointer fields), constant tables and locals that only receive public values. No conditional branch, switch, select, load/store address, vector lane index, indirect callee, memcpy/memset/calloc length, div/rem operand or returned status depends on a secret, and no secret is stored into a public field - in the source-shaped IR and in the IR at the shipped optimisation level (and in all 32 switch configurations in the thorough tier). This is a proof-style argument over all secret values at once; tests observe bytes only and cannot see timing.",
